@@ -670,6 +670,10 @@ package compose
 
 //@ func (*runner).resolveCompletedTasks
 //@   props C01 C02 C19
+//@   ghost pending bool = false
+//@   after call 3 append: ghost pending = len(result) > 0
+//@   at call 2 copyItem: ghost pending = false
+//@   note pending: a task whose list of next nodes (selected branch targets followed by its data successors) is non-empty has its output distributed to them (second copyItem, then the write loop) before the next completed task is looked at
 //@   at call 1 copyItem: assert[one_copy_per_consumer] @C19 arg1 == len(t.call.writeTo) + 2 * len(t.call.writeToBranches)
 //@   note one_copy_per_consumer: every copy made of a node's output has a consumer (one per data successor, two per branch: the condition and the selected targets); a surplus copy is never closed and keeps the source open
 //@   requires r != nil && cmOK(cm) && tablesOK(cm) && branchHandlersOK(r)
@@ -681,6 +685,7 @@ package compose
 //@   ensures[ok] cmOK(cm)
 //@   loop 1:
 //@     modifies fresh(), chanCtl(cm)
+//@     invariant[output_distributed_before_next_task] @C01 !pending
 //@     invariant[ok_cm] cmOK(cm)
 //@     invariant[ok_tables] tablesOK(cm)
 //@     invariant[ok_bh] branchHandlersOK(r)
@@ -1199,10 +1204,21 @@ package compose
 
 //@ func (*runner).handleInterruptWithSubGraphAndRerunNodes
 //@   props C05 C06
-//@   trusted folds the outputs of the other finished tasks into the channels and builds the nested checkpoint (C05); not yet under a functional contract
+//@   skip pre safe frame
+//@   paths 1
+//@   note partial: only the assertions below and the postcondition are checked (callee preconditions, panic-freedom and the write set are not: the write set is trusted by run)
 //@   requires r != nil && cm != nil
 //@   modifies fresh(), chanCtl(cm), chanValsContent(cm), chanValsField(cm), region("F|compose.internalError|nodePath")
+//@   ghost valsFolded int = 0
+//@   ghost depsFolded int = 0
+//@   ghost saved int = 0
+//@   at call cm.updateValues: ghost valsFolded++
+//@   at call cm.updateDependencies: ghost depsFolded++
+//@   at call r.checkPointer.convertCheckPoint: assert[finished_siblings_folded_into_the_channels_before_saving] @C05 valsFolded == 1 && depsFolded == 1
+//@   at call r.checkPointer.set: assert[top_level_with_id_only] @C06 !isSubGraph && checkPointID != nil
+//@   at call r.checkPointer.set: ghost saved++
 //@   ensures[always_error] result != nil
+//@   ensures[checkpoint_written_at_most_once] @C06 saved <= 1 && (isSubGraph ==> saved == 0) && (checkPointID == nil ==> saved == 0)
 
 //@ func (*runner).run
 //@   props C01 C05 C06 C10
@@ -1223,6 +1239,8 @@ package compose
 //@   at call tm.submit: assert[interrupt_before_honoured] @C06 (supersteps == 0 && fromCp) || noneBefore(r, nextTasks)
 //@   at call tm.submit: ghost supersteps++
 //@   at call 1 r.handleInterrupt: assert[initial_before_reported] @C06 forall(i int :: 0 <= i && i < len(nextTasks) && inList(nextTasks[i].nodeKey, r.interruptBeforeNodes) ==> inList(nextTasks[i].nodeKey, hit))
+//@   ghost afterHit bool = false
+//@   after call 1 r.resolveInterruptCompletedTasks: ghost afterHit = len(interruptAfterNodes) > 0
 //@   at call 2 r.handleInterrupt: assert[no_rerun_or_subgraph_interrupt_dropped] @C06 len(interruptRerunNodes) == 0 && len(subGraphInterrupts) == 0
 //@   at call 2 r.handleInterrupt: assert[every_pending_task_saved] @C05 len(arg3) == len(nextTasks) + len(newNextTasks)
 //@   at call 1 r.handleInterrupt: assert[initial_tasks_saved] @C05 len(arg3) == len(nextTasks) && arr(arg3) == arr(nextTasks) && off(arg3) == off(nextTasks)
@@ -1239,6 +1257,7 @@ package compose
 //@     invariant[counters] supersteps == step && step >= 0 && starts == 1 && ends == 0 && haveOnStart
 //@     invariant[limit] r.dag || maxSteps >= 1
 //@     invariant[tasks_filtered] (step == 0 && fromCp) || noneBefore(r, nextTasks)
+//@     invariant[no_interrupt_after_hit_forgotten] @C06 !afterHit
 
 // ---------------------------------------------------------------------------------------------------
 // workflow.go — overlap detection between the mapped target paths of one workflow node (C15)
@@ -1708,3 +1727,13 @@ package compose
 //@   at call onError: assert[error_only_after_failure] @C10 runs == 1 && rerr != nil && ends == 0 && errs == 0 && arg1 == rerr
 //@   at call onError: ghost errs++
 //@   ensures[callbacks_paired] @C10 starts == 1 && runs == 1 && ends + errs == 1 && (rerr == nil ==> ends == 1 && err == nil) && (rerr != nil ==> errs == 1)
+
+//@ func (*graph).compile
+//@   props C20
+//@   paths 1
+//@   skip pre safe frame
+//@   note partial: only the assertions at the end of compile are checked (the body is executed with callee preconditions, panic-freedom and the write set unchecked); the compile-time graph checks themselves (entry/exit edges, type inference, DAG validation) are not characterised
+//@   requires g != nil
+//@   at call g.onCompileFinish: assert[no_step_limit_in_dag_mode] @C20 !(r.dag && r.options.maxRunSteps > 0)
+//@   at call g.onCompileFinish: assert[pregel_has_a_step_limit] @C20,C01 r.dag || r.options.maxRunSteps != 0
+//@   at call g.onCompileFinish: assert[marked_compiled] @C20 g.compiled
